@@ -1,1 +1,83 @@
-fn main() {}
+//! vh: workloads that run the real ragc pipeline (library in-process and the `ragc` binary as a
+//! subprocess) under monitors. One workload per property family; see /verif/DESIGN.md.
+mod cli;
+mod drive;
+mod gen;
+mod mon;
+mod p_cli;
+mod p_compress;
+mod p_determinism;
+mod p_fasta;
+mod p_present;
+mod p_profile;
+mod p_range;
+mod p_reader;
+mod p_roundtrip;
+mod p_splitters;
+mod p_termination;
+mod p_trunc;
+mod p_writefail;
+
+use std::alloc::{GlobalAlloc, Layout, System};
+use std::sync::atomic::{AtomicUsize, Ordering};
+use vcommon::{Args, Report};
+
+/// Largest single allocation request since the last reset (C14's allocation monitor)
+pub static ALLOC_MAX: AtomicUsize = AtomicUsize::new(0);
+
+struct CountingAlloc;
+unsafe impl GlobalAlloc for CountingAlloc {
+    unsafe fn alloc(&self, l: Layout) -> *mut u8 {
+        ALLOC_MAX.fetch_max(l.size(), Ordering::Relaxed);
+        System.alloc(l)
+    }
+    unsafe fn dealloc(&self, p: *mut u8, l: Layout) {
+        System.dealloc(p, l)
+    }
+    unsafe fn alloc_zeroed(&self, l: Layout) -> *mut u8 {
+        ALLOC_MAX.fetch_max(l.size(), Ordering::Relaxed);
+        System.alloc_zeroed(l)
+    }
+    unsafe fn realloc(&self, p: *mut u8, l: Layout, n: usize) -> *mut u8 {
+        ALLOC_MAX.fetch_max(n, Ordering::Relaxed);
+        System.realloc(p, l, n)
+    }
+}
+#[global_allocator]
+static GLOBAL: CountingAlloc = CountingAlloc;
+
+fn main() {
+    let argv: Vec<String> = std::env::args().collect();
+    let args = Args::parse(&argv);
+    // panics inside ragc are caught and judged by the workloads; keep stderr readable
+    if args.get("loud") != Some("1") {
+        std::panic::set_hook(Box::new(|_| {}));
+    }
+    let mut rep = Report::new();
+    let mut code = 0;
+    match args.workload.as_str() {
+        "c01" => p_roundtrip::run(&args, &mut rep, p_roundtrip::Which::C01),
+        "c02" => p_roundtrip::run(&args, &mut rep, p_roundtrip::Which::C02),
+        "c04" => p_determinism::run(&args, &mut rep),
+        "c05" => p_termination::run(&args, &mut rep),
+        "c05child" => code = p_termination::child(&args, &mut rep),
+        "c07" => p_range::run(&args, &mut rep),
+        "c08" => p_reader::run(&args, &mut rep),
+        "c11" => p_splitters::run(&args, &mut rep),
+        "c12" => p_compress::run(&args, &mut rep),
+        "c14" => p_trunc::run(&args, &mut rep),
+        "c14child" => code = p_trunc::child(&args, &mut rep),
+        "c15" => p_writefail::run(&args, &mut rep),
+        "c15child" => std::process::exit(p_writefail::child(&args)),
+        "c16" => p_fasta::run(&args, &mut rep),
+        "c17" => p_cli::run(&args, &mut rep),
+        "c18" => p_profile::run(&args, &mut rep),
+        "c19" => p_present::run(&args, &mut rep),
+        other => {
+            eprintln!("vh: unknown workload {:?}", other);
+            std::process::exit(2);
+        }
+    }
+    args.write_out(&rep);
+    std::process::exit(code);
+}
